@@ -150,7 +150,7 @@ var stageTables = map[string][]stageRule{
 	"I7d":   {{"must be greater", 71}, {"disclosure salt type", 72}, {"disclosure name type", 73}},
 	"I7dig": {{"get disclosure digests", 78}},
 	"I7cnf": {{"must be present in SD-JWT", 76}, {"must be an object", 77}},
-	"I6f": {{"unknown key encoding", 61}, {"code exceeds maximum size", 64}, {"invalid bbs+ public key", 66}},
+	"I6f":   {{"unknown key encoding", 61}, {"code exceeds maximum size", 64}, {"invalid bbs+ public key", 66}},
 }
 
 func coqObs(table string, o Outcome) string {
